@@ -23,8 +23,8 @@ PROPS = {
     "C02": {
         "title": "AES-GCM one-shot output equals NIST SP 800-38D for every length, AAD, tag size",
         "variant": "default",
-        "quick": {"cases": 250000},
-        "thorough": {"cases": 6000000, "opts": ["bigmax=1200000"]},
+        "quick": {"cases": 250000, "opts": ["giants=1"]},
+        "thorough": {"cases": 6000000, "opts": ["bigmax=1200000", "giants=3"]},
         "rule": "rapidcheck cases over key size x {sse, avx_gen2, avx_gen4, vaes_avx512, legacy, isal_} x {regular, nt} x {enc, dec}; key/IV/AAD/data from a "
                 "seed; data length mixture (0..1100 dense, 4080..4112, 65520..65552, up to bigmax), AAD length mixture, tag 8/12/16, in place or not, "
                 "every buffer placed against a guard page or shifted to an arbitrary alignment; key data precomputed by the same family. Oracle: "
@@ -47,8 +47,8 @@ PROPS = {
     "C04": {
         "title": "AES key expansion equals FIPS-197; AES-CBC equals SP 800-38A, all key sizes",
         "variant": "default",
-        "quick": {"cases": 800000},
-        "thorough": {"cases": 3000000},
+        "quick": {"cases": 800000, "opts": ["giants=2"]},
+        "thorough": {"cases": 3000000, "opts": ["giants=6"]},
         "rule": "rapidcheck cases over {128,192,256} x entry (keyexp {sse, avx, legacy, isal_}, cbc enc {x4, x8, legacy, isal_}, cbc dec {sse, avx, vaes_avx512, "
                 "legacy, isal_}); keys/IV/data from a seed; N blocks in {1..80 dense, 255..257, 81..1200, 4096}; in place / out of place; IV and schedules "
                 "16-byte aligned as documented, data anywhere. Oracle: reference key schedule compared byte for byte with both arrays the library wrote; "
